@@ -58,6 +58,12 @@ def check(case):
             check_round(dict(case, am=case["am2"], ph=case["ph2"]), state)
         except PropertyViolation as v:
             raise PropertyViolation("after-inplace-update:" + v.bucket, "after an in-place parameter update of the same object: " + v.message, v.detail)
+        gen.set_net(state.rbm_am, case["am"])
+        gen.set_net(state.rbm_ph, case["ph"])
+        try:
+            check_round(case, state)
+        except PropertyViolation as v:
+            raise PropertyViolation("after-second-inplace-update:" + v.bucket, "after a second in-place parameter update (back to the first values): " + v.message, v.detail)
     return r
 
 
